@@ -371,6 +371,5 @@ theorem postPoll_ext (d : Dev) (env : Env) (o : Oracle) (r : List RxCall) (h : N
     unfold processAction at h ⊢
     exact processActionF_ext r _ _ _ _ _ h
 
-#print axioms postPoll_ext
 
 end Pm.Dev2
